@@ -61,6 +61,14 @@ class Log:
                 return e
         return None
 
+    def pos(self, rec):
+        """index of a record by identity (never compare records with ==: that would ask the
+        solver about the numbers inside)"""
+        for i, e in enumerate(self.events):
+            if e is rec:
+                return i
+        raise ValueError('record not in log')
+
     def has(self, actor, event):
         return self.first(actor, event) is not None
 
@@ -143,3 +151,83 @@ async def at_cp(c, p):
     while i < p:
         await instant
         i += 1
+
+
+class _CloseNow(Exception):
+    """raised by the body of the enclosing scope of a CLOSE fault"""
+
+
+class Fault:
+    """
+    A fault striking one victim activity at a symbolic instant (c, p): date c, then p turns.
+      CANCEL     task.cancel() from another activity
+      INTERRUPT  the victim runs inside `async with until(flag)`, the flag is set at (c, p)
+      CLOSE      the victim's task lives in a scope whose body raises at (c, p): the task is
+                 closed synchronously (GeneratorExit)
+    `first` places the attacker before / after the victim in the run queue, so that together
+    with p every activation boundary of the victim inside a time step is covered.
+    """
+    NONE, CANCEL, INTERRUPT, CLOSE = range(4)
+    NAMES = ['none', 'cancel', 'interrupt', 'close']
+
+    def __init__(self, E_, name, kinds, lo=0, hi=30, pmax=2, real=False, placements=True):
+        self.name = name
+        self.kind = kinds[E_.pick(name + '_fault', len(kinds))]
+        if self.kind != Fault.NONE:
+            self.c = E_.num(name + '_c', lo, hi, real=real)
+            self.p = E_.pick(name + '_p', pmax)
+            self.first = E_.flag(name + '_first') if placements else False
+        else:
+            self.c = self.p = None
+            self.first = False
+        self.flag = usim.Flag()
+        self.task = None
+        self.struck = None     # (time) when the attacker acted
+        self.log = None
+
+    def spawn(self, scope, make_victim, log=None):
+        """start victim (a zero-argument coroutine function) in `scope` together with its attacker"""
+        self.log = log
+        kind = self.kind
+        if kind == Fault.NONE:
+            self.task = scope.do(make_victim())
+            return self.task
+        if kind == Fault.CLOSE:
+            scope.do(self._enclosing(make_victim))
+            return None
+        if self.first:
+            scope.do(self._attacker())
+        if kind == Fault.INTERRUPT:
+            self.task = scope.do(self._interruptible(make_victim))
+        else:
+            self.task = scope.do(make_victim())
+        if not self.first:
+            scope.do(self._attacker())
+        return self.task
+
+    def _note(self):
+        self.struck = now()
+        if self.log is not None:
+            self.log(self.name, 'fault', Fault.NAMES[self.kind])
+
+    async def _attacker(self):
+        await at_cp(self.c, self.p)
+        self._note()
+        if self.kind == Fault.CANCEL:
+            self.task.cancel()
+        else:
+            await self.flag.set()
+
+    async def _interruptible(self, make_victim):
+        async with until(self.flag):
+            await make_victim()
+
+    async def _enclosing(self, make_victim):
+        try:
+            async with Scope() as enc:
+                self.task = enc.do(make_victim())
+                await at_cp(self.c, self.p)
+                self._note()
+                raise _CloseNow()
+        except _CloseNow:
+            pass
